@@ -23,6 +23,20 @@ theorem modifier_value_kind (cfg : Cfg) (p : PrimTy) (s : Text) (v : Val)
     (h : modifierValue facts08 factsAttr cfg p s = .ok v) : p.kindOk v = true :=
   modifierValue_sound leafLaws08 factsAttr cfg p s v h
 
+/-- an Enum element is read as a member of the enumeration or not at all: a text that is no member — the name of a
+    Python attribute of the Enum class included — is a fault, never a value -/
+theorem enum_text_must_be_a_member (names : List Text) (s : Text) (h : names.contains s = false) :
+    leafFromText facts08 (.enum names) s = .fault := by
+  have hm : ¬ s ∈ names := by simpa using h
+  simp [leafFromText]
+  exact hm
+
+theorem enum_member_is_read (names : List Text) (s : Text) (h : names.contains s = true) :
+    leafFromText facts08 (.enum names) s = .ok (.enum s) := by
+  have hm : s ∈ names := by simpa using h
+  simp [leafFromText]
+  exact hm
+
 /-! ### non-vacuity -/
 def exB : TyA := .obj "B".toList "urn:x".toList none
   [("id".toList, .attribute, .prim (.integer .i32 {}) { minOccurs := 1 }),
